@@ -91,6 +91,7 @@ type mgrIn struct {
 	MgrHost    int        `json:"mgr_host,omitempty"` // the process under test runs on h<MgrHost> (0 = the last host)
 	Start      string     `json:"start,omitempty"` // state the process starts in: "" = Manager | Candidate | Maintenance | FirstRun
 	OtherManager bool     `json:"other_manager,omitempty"` // the manager lock is held by another process
+	OptReg     []string   `json:"opt_reg,omitempty"` // hosts with an entry in the optimisation registry (registered or not)
 	RaceSwitch *mgrSwitch `json:"race_switch,omitempty"` // a second initiator files this request while iteration FaultAt is reading last_switch (between the manager's look and its own filing)
 }
 
@@ -293,6 +294,9 @@ func mgrRun(in mgrIn) mgrOut {
 	if in.MaintFile {
 		writeFile(va.cfg.Maintenancefile, "")
 	}
+	for _, h := range in.OptReg {
+		d.rawSet(dcs.JoinPath("optimization_nodes", h), map[string]string{"status": ""})
+	}
 	setHealth := func(h, kind string) {
 		if kind == "missing" {
 			d.rawDelete(dcs.JoinPath(pathHealthPrefix, h))
@@ -431,8 +435,7 @@ func mgrRun(in mgrIn) mgrOut {
 				st.Restarted = true
 			}
 		}
-		st.MemBefore = "{| mm_ha := " + hostsGal(app.cluster.HANodeHosts()) + "; mm_casc := " + hostsGal(app.cluster.CascadeNodeHosts()) +
-			"; mm_an := " + anMemGal(app, vEpoch) + "; mm_repair := " + repairMemGal(app) + " |}"
+		st.MemBefore = mgrMemGal(app)
 		st.FailedBefore = mgrFailed(app)
 		st.Files = fileState()
 		st.CutNow = map[string]bool{}
@@ -534,6 +537,11 @@ func mgrRun(in mgrIn) mgrOut {
 		time.Sleep(time.Duration(in.Gap) * time.Second)
 	}
 	return out
+}
+
+func mgrMemGal(app *App) string {
+	return "{| mm_ha := " + hostsGal(app.cluster.HANodeHosts()) + "; mm_casc := " + hostsGal(app.cluster.CascadeNodeHosts()) +
+		"; mm_an := " + anMemGal(app, vEpoch) + "; mm_repair := " + repairMemGal(app) + " |}"
 }
 
 func mgrNextGal(s appState) string {
